@@ -2,7 +2,7 @@
 from common import *
 
 RULE = ("random sequences (length <= 12) of set/append/insert with chunks of 0-300 bytes and positions 0..size+5 "
-        "on fresh sections of several types in all 4 class/byte-order configurations; thorough adds all sequences of "
+        "on fresh sections of several types in all 4 class/byte-order configurations, replacements aimed at the size/capacity boundaries (same length as the current contents while the buffer has slack, the capacity, one off), a quarter of the sequences also append pieces of the section's own contents by pointer (append_data( get_data() + off, len )); thorough adds all sequences of "
         "length <= 4 over a small chunk alphabet. Non-trivial = at least one reallocation and one in-place insert "
         "(decided by replaying the capacity rule 2*cap+len on the script).")
 ASSUMPTIONS = ["sizes stay below 2^32 (ELF32) / 2^61 (ELF64): hypothesis of drun_refines",
@@ -27,6 +27,8 @@ def mk_loaded_case(cid, rng, img_hex, sec, init, lazy, touch, ops):
             lines.append("dset %d %s" % (sec, hx(o[1])))
         elif o[0] == "app":
             lines.append("dapp %d %s" % (sec, hx(o[1])))
+        elif o[0] == "appself":
+            lines.append("dappself %d %d %d" % (sec, o[1], o[2]))
         else:
             lines.append("dins %d %d %s" % (sec, o[1], hx(o[2])))
         lines.append("getdata %d" % sec)
@@ -40,6 +42,8 @@ def mk_case(cid, cfg, stype, ops):
             lines.append("dset 2 " + hx(o[1]))
         elif o[0] == "app":
             lines.append("dapp 2 " + hx(o[1]))
+        elif o[0] == "appself":
+            lines.append("dappself 2 %d %d" % (o[1], o[2]))
         else:
             lines.append("dins 2 %d %s" % (o[1], hx(o[2])))
         lines.append("getdata 2")
@@ -63,6 +67,8 @@ def meta_from_lines(lines):
             ops.append(("app", bytes.fromhex(t[2]) if t[2] != "-" else b""))
         elif t[0] == "dins":
             ops.append(("ins", int(t[2], 0), bytes.fromhex(t[3]) if t[3] != "-" else b""))
+        elif t[0] == "dappself":
+            ops.append(("appself", int(t[2], 0), int(t[3], 0)))
         elif t[0] == "getdata":
             ops.append(("get",))
     return {"stype": stype, "ops": ops, "init": init}
@@ -82,6 +88,10 @@ def spec_replay(meta):
             content = o[1]
         elif o[0] == "app":
             content = content + o[1]
+        elif o[0] == "appself":
+            # append_data( get_data() + off, len ): appends a copy of a piece of the current contents
+            if o[1] + o[2] <= len(content):
+                content = content + content[o[1]:o[1] + o[2]]
         elif o[0] == "ins":
             if o[1] <= len(content):
                 content = content[:o[1]] + o[2] + content[o[1]:]
@@ -120,6 +130,11 @@ def nontrivial(case):
     for o in case.meta["ops"]:
         if o[0] == "set":
             cap = size = len(o[1])
+        elif o[0] == "appself":
+            if o[1] + o[2] <= size:
+                if size + o[2] > cap:
+                    cap = 2 * cap + o[2]; realloc = True
+                size += o[2]
         elif o[0] in ("app", "ins"):
             d = o[1] if o[0] == "app" else o[2]
             pos = size if o[0] == "app" else o[1]
@@ -134,21 +149,47 @@ def nontrivial(case):
     return realloc and inplace
 
 
-def rand_ops(rng, n, maxchunk):
-    ops, size = [], 0
+def rand_ops(rng, n, maxchunk, size=0, alias=False):
+    """[size]: length of the contents the sequence starts from.  The capacity is tracked with the library's
+    growth rule (2*cap+len) so that replacements can be aimed at the size/capacity boundaries: a replacement of
+    exactly the current length while the buffer has slack, of exactly the capacity, one byte off either."""
+    ops, cap = [], size
     for _ in range(n):
         r = rng.random()
         ln = rng.choice([0, 0, 1, 2, 3, 7, 8, 16, 31, 64, 100, 300, rng.randint(0, maxchunk)])
         ln = min(ln, maxchunk)
+        if r < 0.25:
+            q = rng.random()
+            if q < 0.35:
+                ln = size
+            elif q < 0.45:
+                ln = cap
+            elif q < 0.55:
+                ln = max(size - 1, 0)
+            elif q < 0.65:
+                ln = size + 1
+            ln = min(ln, 4 * maxchunk)
         d = rbytes(rng, ln)
-        if r < 0.15:
-            ops.append(("set", d)); size = ln
-        elif r < 0.45:
-            ops.append(("app", d)); size += ln
+        if alias and size > 0 and rng.random() < 0.2:
+            off = rng.randint(0, size - 1)
+            ln = rng.choice([size - off, 1, rng.randint(0, size - off), cap - size if 0 < cap - size <= size - off else 1])
+            ops.append(("appself", off, ln))
+            if size + ln > cap:
+                cap = 2 * cap + ln
+            size += ln
+        elif r < 0.25:
+            ops.append(("set", d)); size = cap = ln
+        elif r < 0.5:
+            ops.append(("app", d))
+            if size + ln > cap:
+                cap = 2 * cap + ln
+            size += ln
         else:
             pos = rng.choice([0, size, size + 1, size + 5, max(size - 1, 0), rng.randint(0, size + 5)])
             ops.append(("ins", pos, d))
             if pos <= size:
+                if size + ln > cap:
+                    cap = 2 * cap + ln
                 size += ln
     return ops
 
@@ -159,7 +200,7 @@ def generate(rng, tier):
     for i in range(n):
         cfg = CFGS[i % 4]
         stype = 8 if i % 10 == 9 else rng.choice(SEC_TYPES)
-        ops = rand_ops(rng, rng.randint(1, 12), 300)
+        ops = rand_ops(rng, rng.randint(1, 12), 300, alias=(i % 4 == 3))
         cases.append(mk_case("r%d" % i, cfg, stype, ops))
     # sections of loaded images: eager, lazy with the data already requested, lazy and not yet requested
     import elfimg
@@ -169,13 +210,12 @@ def generate(rng, tier):
         cand = [k for k, s_ in enumerate(im.sections) if s_["data"] is not None and s_["type"] != 0]
         sec = rng.choice(cand)
         mode = i % 3
-        ops = rand_ops(rng, rng.randint(1, 8), 120)
-        # track the size for positions relative to the loaded contents
+        ops = rand_ops(rng, rng.randint(1, 8), 120, len(im.sections[sec]["data"]), alias=(i % 4 == 2))
         cases.append(mk_loaded_case("l%d" % i, rng, hx(b), sec, im.sections[sec]["data"], 1 if mode else 0, mode == 1, ops))
     # small-scope enumeration: all sequences up to length L over a small alphabet
     alpha = [b"", b"A", b"BCD"]
     L = 3 if tier == "quick" else 4
-    atoms = [("set", a) for a in alpha] + [("app", a) for a in alpha] + \
+    atoms = [("set", a) for a in alpha + [b"EF", b"GHIJ"]] + [("app", a) for a in alpha] + \
             [("ins", p, a) for p in (0, 1, 2, 9) for a in alpha]
     import itertools
     k = 0
@@ -190,13 +230,21 @@ def generate(rng, tier):
 
 
 def distribution(cases):
-    d = {"set": 0, "app": 0, "ins": 0, "ins_beyond": 0, "empty_chunks": 0, "nobits_cases": 0, "max_chunk": 0}
+    d = {"set": 0, "app": 0, "ins": 0, "ins_beyond": 0, "empty_chunks": 0, "nobits_cases": 0, "max_chunk": 0,
+         "set_same_length_with_slack": 0, "set_capacity_length": 0}
     for c in cases:
-        size = 0
+        size = cap = len(c.meta.get("init", b""))
         if c.meta["stype"] == 8:
             d["nobits_cases"] += 1
         for o in c.meta["ops"]:
             if o[0] == "get":
+                continue
+            if o[0] == "appself":
+                d["append_of_own_contents"] = d.get("append_of_own_contents", 0) + 1
+                if o[1] + o[2] <= size:
+                    if size + o[2] > cap:
+                        cap = 2 * cap + o[2]
+                    size += o[2]
                 continue
             d[o[0]] += 1
             data = o[-1]
@@ -204,11 +252,15 @@ def distribution(cases):
             if len(data) == 0:
                 d["empty_chunks"] += 1
             if o[0] == "set":
-                size = len(data)
-            elif o[0] == "app":
-                size += len(data)
-            elif o[1] > size:
+                if len(data) == size and cap > size and size > 0:
+                    d["set_same_length_with_slack"] += 1
+                if len(data) == cap and cap > size:
+                    d["set_capacity_length"] += 1
+                size = cap = len(data)
+            elif o[0] == "ins" and o[1] > size:
                 d["ins_beyond"] += 1
             else:
+                if size + len(data) > cap:
+                    cap = 2 * cap + len(data)
                 size += len(data)
     return d
